@@ -438,7 +438,8 @@ wrapint wrapint::zext(bitwidth_t bits_to_add) const {
 wrapint wrapint::keep_lower(bitwidth_t bits_to_keep) const {
   if (bits_to_keep >= _width)
     return *this;
-  return wrapint(_n & (((uint64_t)1 << (uint64_t)(bits_to_keep + 1)) - 1),
+  // bits_to_keep < _width <= 64 so the shift is always smaller than 64
+  return wrapint(_n & (((uint64_t)1 << (uint64_t)bits_to_keep) - 1),
                  bits_to_keep);
 }
 
